@@ -199,19 +199,24 @@ def TV.upd (tv : TV) (p : Nat) (x : Option Int) : TV := fun q => if q = p then x
 /-- `targetPos := bs + int(movingSourceSlot/ratio) - int(target.Start)` (`ratio ≠ 0`) -/
 def targetPos (ratio bs tstart : Int) (s : Nat) : Int := bs + (s : Int) / ratio - tstart
 
-/-- the inner loop over one decoder: `dec` lists the slots that have a value, ascending.
-`targetPos < 0` → continue, `targetPos ≥ length` → break. -/
-def placeDec (ft : Nat) (ratio bs tstart : Int) (length : Nat) : TV → List (Nat × Int) → TV
+/-- placement by the slot of the source slot's timestamp (`DownSamplingMultiSeriesIntoBy` with the
+`targetSlotOf` that `merger.prepare` builds — only present in a tree with fixes/C04-…patch applied;
+which of the two placements the code uses is a regenerated fact) -/
+def targetPosTs (r : R) (tstart : Int) (s : Nat) : Int := r.calcSlot (r.getTimestamp s) - tstart
+
+/-- the inner loop over one decoder: `dec` lists the slots that have a value, ascending; `posOf` is
+the target position of a source slot. `targetPos < 0` → continue, `targetPos ≥ length` → break. -/
+def placeDec (ft : Nat) (posOf : Nat → Int) (length : Nat) : TV → List (Nat × Int) → TV
   | tv, [] => tv
   | tv, (s, v) :: rest =>
-    let pos := targetPos ratio bs tstart s
-    if pos < 0 then placeDec ft ratio bs tstart length tv rest
+    let pos := posOf s
+    if pos < 0 then placeDec ft posOf length tv rest
     else if pos ≥ length then tv
-    else placeDec ft ratio bs tstart length (tv.upd pos.toNat (aggInto ft (tv pos.toNat) v)) rest
+    else placeDec ft posOf length (tv.upd pos.toNat (aggInto ft (tv pos.toNat) v)) rest
 
 /-- the loop over the decoders of `DownSamplingMultiSeriesInto` -/
-def downSample (ft : Nat) (ratio bs tstart : Int) (length : Nat) (decs : List (List (Nat × Int))) : TV :=
-  decs.foldl (placeDec ft ratio bs tstart length) (fun _ => none)
+def downSample (ft : Nat) (posOf : Nat → Int) (length : Nat) (decs : List (List (Nat × Int))) : TV :=
+  decs.foldl (placeDec ft posOf length) (fun _ => none)
 
 /-- one stored value -/
 structure Cell where
@@ -281,24 +286,25 @@ def seriesFields (blocks : List MBlock) : List (Nat × Nat × Nat) :=
     | [] => [x]
     | y :: _ => if x.1 = y.1 ∧ x.2.1 = y.2.1 then acc else x :: acc) []
 
-/-- rollup merge of the blocks of one metric (`merger.Merge` + `seriesMerger.merge`):
-`none` = the Go code divides by a zero ratio. -/
-def mergeMetric (r : R) (metric : Nat) (blocks : List MBlock) : Option MBlock :=
+/-- rollup merge of the blocks of one metric (`merger.Merge` + `seriesMerger.merge`); `byTs` selects
+the placement (see `targetPosTs`). `none` = the Go code divides by a zero ratio. -/
+def mergeMetric (byTs : Bool) (r : R) (metric : Nat) (blocks : List MBlock) : Option MBlock :=
   match prepare r blocks with
   | none => some { metric := metric, start := 0, stop := 0, cells := [] }
   | some p =>
-    if p.ratio = 0 then none else
+    if !byTs && p.ratio = 0 then none else
     let len := p.length
+    let posOf : Nat → Int := if byTs then targetPosTs r p.tStart else targetPos p.ratio p.baseSlot p.tStart
     let cells := (seriesFields blocks).flatMap (fun (sid, fid, ft) =>
-      let tv := downSample ft p.ratio p.baseSlot p.tStart len (blocks.map (fun b => decoderOf b sid fid))
+      let tv := downSample ft posOf len (blocks.map (fun b => decoderOf b sid fid))
       (List.range len).filterMap (fun pos => (tv pos).map (fun v =>
         { series := sid, field := fid, ftype := ft, slot := (p.tStart + pos).toNat, val := v })))
     some { metric := metric, start := p.tStart.toNat, stop := p.tEnd.toNat, cells := cells }
 
 /-- rollup merge of the input files (`compactJob.doMerge`: values of one key are merged together) -/
-def mergeFiles (r : R) (inputs : List FileData) : Option FileData :=
+def mergeFiles (byTs : Bool) (r : R) (inputs : List FileData) : Option FileData :=
   let metrics := sortDedup (inputs.flatMap (fun f => f.map (·.metric)))
-  metrics.mapM (fun m => mergeMetric r m (inputs.filterMap (fun f => f.find? (·.metric = m))))
+  metrics.mapM (fun m => mergeMetric byTs r m (inputs.filterMap (fun f => f.find? (·.metric = m))))
 
 /-! ## C. bookkeeping -/
 
